@@ -396,6 +396,13 @@ class PendingFor(_PendingLoop[For]):
         self.converted_body = []
         self.converted_orelse = []
 
+        # the comprehension iterates over a reserved name,
+        # the real target is assigned at the beginning of each iteration.
+        # So the target is an ordinary variable of the enclosing namespace:
+        # it can be re-assigned in the loop body, it can be used by inner
+        # functions and it keeps its last value after the loop.
+        self.for_item_expr = Name(id=ol_name(OL_FOR_ITEM))
+
         # flow-control vars
         self.flow_ctrl_wrapped_iter_expr = Name(id=ol_name(OL_WRAPPED_ITER))
         self.flow_ctrl_interrupt_expr = Name(id=ol_name(OL_INTERRUPT))
@@ -404,16 +411,25 @@ class PendingFor(_PendingLoop[For]):
 
         self.nsp.loop_stack.append(self)
 
+    def _assign_target(self) -> list[expr]:
+        """Assign the current item to the target of the for loop"""
+        assign = Assign(targets=[self.node.target], value=self.for_item_expr)
+        return PendingAssign(assign, self.nsp, self.nsp_global).assign_auto(
+            self.node.target, self.for_item_expr
+        )
+
     def get_result(self) -> list[expr]:
         # if no break/continue/return used
         # use the simplest list comprehension
         if self.interrupt_cnt == 0 and len(self.node.orelse) == 0:
             return [
                 ListComp(
-                    elt=self.nsp_global.expr_wraper(self.converted_body),
+                    elt=self.nsp_global.expr_wraper(
+                        self._assign_target() + self.converted_body
+                    ),
                     generators=[
                         comprehension(
-                            target=self.node.target,
+                            target=self.for_item_expr,
                             iter=expr_transf(self.nsp, self.node.iter),
                             ifs=[],
                             is_async=0,
@@ -423,6 +439,8 @@ class PendingFor(_PendingLoop[For]):
             ]
 
         for_loop_final: list[expr] = []
+
+        self.converted_body[0:0] = self._assign_target()
 
         # init the flow-control vars
         if self.flow_ctrl_interrupt_used:
@@ -484,7 +502,7 @@ class PendingFor(_PendingLoop[For]):
             elt=self.nsp_global.expr_wraper(self.converted_body),
             generators=[
                 comprehension(
-                    target=self.node.target,
+                    target=self.for_item_expr,
                     iter=for_loop_iter,
                     ifs=[],
                     is_async=0,
